@@ -1525,3 +1525,61 @@ def rebuild_depends_on_the_built_flag_only(ctx):
             not extra,
             (f"the rebuild is also conditional on `{short(extra[0], 60)}`: a change that leaves this condition unchanged (a method replaced by another of the same signature, a priority, a mixin's change) is not rebuilt into the table and the old method keeps answering" if extra else ""),
         )
+
+
+# ---------------------------------------------------------------------------------------- conversions inside the package
+def internal_conversions_are_fresh(ctx):
+    """The decorator looks an existing function object up *by name in the frame that defines the function* unless told
+    to make a fresh one.  That lookup is meant for user code; wherever the package itself converts a plain function
+    (the class machinery, extend_super) it asks for a fresh object - otherwise a same-named definition earlier in the
+    class body is found and extended in place, before the class dictionary merges the two a second time."""
+    repo = ctx.repo
+    lookups = [f for f in repo.all_funcs() if f.parent is None and f.cls is None and any(isinstance(x, ast.Attribute) and x.attr == "f_locals" for x in ast.walk(f.node))]
+    ctx.require(len(lookups) == 1, "frame lookup of the decorator not found")
+    lk = lookups[0]
+    decos = []
+    for f in repo.all_funcs():
+        if f.parent is not None or f.cls is not None or f is lk:
+            continue
+        for c in ast.walk(f.node):
+            if isinstance(c, ast.Call) and call_name(c) == lk.name:
+                # the parameter whose truth avoids the lookup
+                from .common import path_atoms
+
+                flags = [a[1].id for a in path_atoms(f.node, c) if a[0] == "falsy" and isinstance(a[1], ast.Name) and a[1].id in f.params]
+                if flags:
+                    decos.append((f, flags[0]))
+    ctx.require(len(decos) == 1, "decorator with a fresh/lookup switch not found")
+    deco, flag = decos[0]
+    ctx.touch(lk, deco)
+    n = 0
+    for f in repo.all_funcs():
+        if f is deco:
+            continue
+        for c in ast.walk(f.node):
+            if isinstance(c, ast.Call) and call_name(c) == deco.name and f.module is deco.module:
+                n += 1
+                ctx.touch(f)
+                kw = [k for k in c.keywords if k.arg == flag]
+                ok = bool(kw) and isinstance(kw[0].value, ast.Constant) and kw[0].value.value is True
+                ctx.ob(
+                    f"{f.key}:converts-fresh",
+                    f.loc(c),
+                    f"`{short(c, 40)}` in {f.name}() asks for a fresh function object ({flag}=True): the package never looks a function object up by name in a frame on its own account",
+                    ok,
+                    f"`{short(c, 40)}` lets the decorator search the defining frame for a same-named function object: inside a class body it finds the earlier definitions and registers into them directly, so the class dictionary then merges an object with itself (a method registered twice, or the definitions of the class lost)",
+                )
+    ctx.require(n >= 2, "expected the package's own conversions of plain functions")
+
+
+# ---------------------------------------------------------------------------------------- the re-compiler, executed
+def recompiled_function_keeps_its_cells(ctx):
+    from . import recodeexec
+
+    recodeexec.law(ctx, "free-variables", "closure-cells")
+
+
+def recompiled_function_keeps_the_rest(ctx):
+    from . import recodeexec
+
+    recodeexec.law(ctx, "carried-over", "planted-globals")
